@@ -507,6 +507,9 @@ func runC17(r *core.Run) {
 			s.RandomOp(cfg)
 			if i == nops/2 && r.Violations() < 10 {
 				s.Directed() // floor: every kind of operation, and the hanging-melt-with-a-token-out pattern, once per history
+				if cfg.Rotate {
+					s.DirectedRotation() // and each kind once as the first operation after an unseen rotation
+				}
 			}
 		}
 		r.Count("operations", int64(s.NOps))
